@@ -81,17 +81,17 @@ func NewAcct(label string) Acct {
 // Chain is one teleport application instance plus what a relayer would know
 // about it (validator keys, last signed header).
 type Chain struct {
-	App      *app.Teleport
-	ChainID  string // tendermint chain id == xibc chain name
-	TxConfig client.TxConfig
-	Header   tmproto.Header      // header of the block being built
-	LastHdr  *xibctmtypes.Header // signed header of the last committed block
-	Hdrs     map[int64]*xibctmtypes.Header
-	Vals     *tmtypes.ValidatorSet
-	Signers  []tmtypes.PrivValidator
-	Accts    []Acct
-	Now      time.Time
-	Panicked string // set when Begin/EndBlock panicked (recorded, never hidden)
+	App       *app.Teleport
+	ChainID   string // tendermint chain id == xibc chain name
+	TxConfig  client.TxConfig
+	Header    tmproto.Header      // header of the block being built
+	LastHdr   *xibctmtypes.Header // signed header of the last committed block
+	Hdrs      map[int64]*xibctmtypes.Header
+	Vals      *tmtypes.ValidatorSet
+	Signers   []tmtypes.PrivValidator
+	Accts     []Acct
+	Now       time.Time
+	Panicked  string // set when Begin/EndBlock panicked (recorded, never hidden)
 	LastBegin abci.ResponseBeginBlock
 	LastEnd   abci.ResponseEndBlock
 }
@@ -102,12 +102,13 @@ func seededPV(label string) mock.PV {
 
 // ChainOpts configures NewChain.
 type ChainOpts struct {
-	ChainID  string
-	Accts    []Acct
-	Balance  int64 // initial "stake" balance of every account
-	Coins    map[string]sdk.Coins
-	Mutate   func(a *app.Teleport, gs simapp.GenesisState)
-	NoCommit bool
+	ChainID     string
+	Accts       []Acct
+	Balance     int64 // initial "stake" balance of every account
+	Coins       map[string]sdk.Coins
+	Mutate      func(a *app.Teleport, gs simapp.GenesisState)
+	NoCommit    bool
+	NoChainName bool // do not set the xibc chain name (genesis import tests)
 }
 
 // NewChain builds a chain with one validator and the given funded accounts.
@@ -197,8 +198,10 @@ func NewChain(o ChainOpts) *Chain {
 		AppHash: a.LastCommitID().Hash, ValidatorsHash: valSet.Hash(), NextValidatorsHash: valSet.Hash(),
 		ProposerAddress: valSet.Proposer.Address}
 	c.beginBlock()
-	if !o.NoCommit {
+	if !o.NoChainName {
 		c.App.XIBCKeeper.ClientKeeper.SetChainName(c.Ctx(), o.ChainID)
+	}
+	if !o.NoCommit {
 		c.Commit()
 	}
 	return c
